@@ -225,6 +225,7 @@ func init() {
 				return s.Marks["custom:near-limit"] > 0 || s.Marks["custom:duplicate-recipient"]+s.Marks["custom:stranger-recipient"]+s.Marks["custom:self-recipient"] > 0
 			})
 		partIntegrityStorm(c, a)
+		partStepThrough(c, a, []string{"customto-vs-customto"})
 		return a.finish(c)
 	}
 	registry["C16"] = func(c *check.Ctx) int {
